@@ -35,7 +35,9 @@ fn object_line(kind: usize, slot: usize, t: i64, d: i64) -> String {
         4 => format!("{x},{y},{t},2,2,B|{}:{}|{}:{y},2,140,2|0|4,0:0|1:2|0:0", x + 60, y + 60, x + 120),
         5 => format!("256,192,{t},8,0,{}", t + 600),
         6 => format!("{x},192,{t},128,0,{}:0:0:0:0:", t + 400),
-        _ => format!("{x},{y},{t},1,0,0:0:0:0:f.wav"),
+        7 => format!("{x},{y},{t},1,0,0:0:0:0:f.wav"),
+        // custom index given, volume left to the sample point
+        _ => format!("{x},{y},{t},1,4,0:0:2:0:"),
     }
 }
 
@@ -393,6 +395,7 @@ fn same_map(a: &HitObjects, b: &HitObjects) -> Option<String> {
 }
 
 fn check_spec(spec: &Spec, shifts: &[i64], acc: &mut Acc) {
+    let _g = crate::engine::watch::guard("spec", |s| s.push_str(&spec.json().to_string()));
     acc.evals += 1;
     acc.transitions += spec.objects.len() as u64 + spec.timing.len() as u64;
     let text = spec.text(0);
@@ -449,7 +452,7 @@ pub fn run(tier: Tier) -> i32 {
     let run = Run::new("C15", tier, "model_checking");
     let mut acc = Acc::new();
     run_witnesses("C15", &mut acc, &replay);
-    let obj_alpha: Vec<(usize, i64)> = (0..8).flat_map(|k| TIMES.iter().map(move |t| (k, *t))).collect();
+    let obj_alpha: Vec<(usize, i64)> = (0..9).flat_map(|k| TIMES.iter().map(move |t| (k, *t))).collect();
     let mut bounds = Vec::new();
     let plans: Vec<(usize, Vec<Vec<usize>>, Vec<u8>, Vec<usize>)> = if tier.thorough() {
         vec![
